@@ -216,7 +216,26 @@ type input struct {
 
 func checkMutant(r *ev.Run, t *lrref.Table, toks []ebnfref.Token, family string) {
 	j := firstBad(t, toks)
-	for _, lay := range layouts {
+	lays := append([]layout{}, layouts...)
+	if j >= 0 && j < len(toks) {
+		// two more layouts: leading blank lines / blanks that put the offending token at byte offsets 4095 and 4096,
+		// i.e. on both sides of the scanner's buffer-half boundary
+		_, placed := ebnfref.Render(toks, layouts[0].sep, layouts[0].end)
+		for _, target := range []int{4095, 4096} {
+			pad := target - placed[j].Offset
+			if pad < 0 {
+				continue
+			}
+			lead := strings.Repeat("\n", pad/2) + strings.Repeat(" ", pad-pad/2)
+			lays = append(lays, layout{fmt.Sprintf("aligned-%d", target), func(i int) string {
+				if i == 0 {
+					return lead
+				}
+				return " "
+			}, "\n"})
+		}
+	}
+	for _, lay := range lays {
 		text, placed := ebnfref.Render(toks, lay.sep, lay.end)
 		r.Add("mutants", 1)
 		r.Add("mutants_"+family, 1)
